@@ -116,7 +116,8 @@ def gen_case(streams, tier):
             mps.append(["var", qgen.gen_pauli_word(w, wires)])
         else:
             mps.append(["probs", ws])
-    shots = w.choice([1, 2, 3, 7, 10, 25, 50, 100, 200, [1, 1], [3, 5], [10, 10], [2, 7, 4], [20, 1, 20], [5, 5, 5]])
+    shots = w.choice([1, 2, 3, 7, 10, 25, 50, 100, 200, [1, 1], [3, 5], [10, 10], [2, 7, 4], [20, 1, 20], [5, 5, 5],
+                      [[5, 2], 12], [[3, 3]], [4, [2, 2], 4], [[5, 2], 12, [5, 1], 12], [7, 7, 30, 7]])
     dev = w.choice(["qubit", "qubit", "qubit", "mixed"])
     rng = "numpy" if dev == "mixed" else w.choice(["numpy"] * 7 + ["jax"])
     if rng == "jax":
@@ -324,7 +325,9 @@ def run_case(case):
         setup(warm_jax=True)
     n = case["n"]
     shots = case["shots"]
-    bins = shots if isinstance(shots, list) else [shots]
+    # the documented expansion of a shot specification: ints and (shots, copies) pairs, in order
+    bins = [b for x in (shots if isinstance(shots, list) else [shots])
+            for b in ([x[0]] * x[1] if isinstance(x, list) else [x])]
     total = sum(bins)
     violations = []
     sig = {"device": case["device"], "rng": case["rng"], "shot_vector": len(bins) > 1}
@@ -421,6 +424,12 @@ def run_case(case):
                             for combo in itertools.product(*per):
                                 if list(combo) == sorted(set(combo)):
                                     plans.append(list(combo))
+                if not plans and too_many:
+                    # candidates exist for every bin, but there are too many ways to thread them to enumerate:
+                    # nothing is concluded for this measurement (sound, counted)
+                    ok_atoms = False
+                    counters["associations_not_enumerable"] = counters.get("associations_not_enumerable", 0) + 1
+                    break
                 if not plans:
                     ok_atoms = False
                     viol("born_rule_offer_missing", {"mp": mp[0], "atom": atom[0]},
